@@ -412,6 +412,7 @@ func init() {
 	p := registry["C17"]
 	p.Rules = append(p.Rules, RuleDef{ID: "C17.R4", Text: "${VAR} substitution: for every match of the placeholder pattern, when LookupEnv(name) reports the variable as set, ALL occurrences of \"${\"+name+\"}\" are replaced by its value in the text that is finally unmarshalled", Run: c17r4})
 	p.Rules = append(p.Rules, RuleDef{ID: "C17.R6", Text: "an explicitly set value stays what it is: outside package config the configuration is only read — no store into a configuration field, no update of a configuration map (frozen exception: stream.Open disables rollback mitigation for an ephemeral bucket)", Run: configImmutable})
+	p.Rules = append(p.Rules, RuleDef{ID: "C17.R10", Text: "a size string whose numeric part does not parse is an error exactly on the branch on which the parse failed, and a string that is neither integer nor number+unit is fatal", Run: parseFailures})
 	p.Rules = append(p.Rules, RuleDef{ID: "C17.R9", Text: "an override that cannot be parsed is fatal, never silently zero: in every derived-settings getter each parse error reaches a panic along the edges on which it is non-nil; the file backend's file name is returned ⇔ configured and not empty (exhaustive)", Run: overrideParsing})
 	p.Rules = append(p.Rules, RuleDef{ID: "C17.R8", Text: "every unset option is filled with its documented default: for each row of the option table in README.md with a non-zero default, a step that ApplyDefaults calls unconditionally stores exactly that value into the field the key's yaml path denotes, under the zero test of that field only (options whose documented default needs no store are listed with the reason)", Run: documentedDefaults})
 	p.Rules = append(p.Rules, RuleDef{ID: "C17.R7", Text: "the defaults are applied: the client's start and close paths call by call: the stream is opened, the listener subscribed (failure fatal), each optional component started and stopped under exactly its configuration switch (polarity included), Commit is Stream.Save, SetMetadata installs the supplied store, newDcp applies the defaults first and returns every error", Run: clientWiring})
